@@ -204,18 +204,18 @@ theorem liveC_deleteVertex_deferred {k : Kernel} (hi : GInv k) (hd : k.deferred 
 /-! ### re-creation of the remembered cells -/
 
 theorem readdCell_frames {k : Kernel} (hl : FaceLoops k) {n : Nat × List Nat} (h4 : n.2.length = 4)
-    (hh : ∀ hf ∈ n.2, hf < k.nHF) (hs : k.spanVertCount n.2 = 4) :
+    (hh : ∀ hf ∈ n.2, hf < k.nHF) (hs : k.spanVertCount n.2 = 4 ∧ k.noParallel n.2 = true) :
     (readdCell k n).cells = k.cells ++ [n.2] ∧ (readdCell k n).cDel = k.cDel ++ [false] ∧
     (readdCell k n).faces = k.faces ∧ (readdCell k n).edges = k.edges ∧ (readdCell k n).vDel = k.vDel := by
   unfold readdCell
   simp only []
-  rw [tetAddCell_eq hl h4 hh hs]
+  rw [tetAddCell_eq hl h4 hh hs.1 hs.2]
   have : k.addCell n.2 false = (k.addCellCore n.2, some k.nC) := by unfold addCell addCellAccepts; simp
   rw [this]
   simp
 
 theorem readdFold_frames : ∀ (rem : List (Nat × List Nat)) (k : Kernel), FaceLoops k →
-    (∀ n ∈ rem, n.2.length = 4 ∧ (∀ hf ∈ n.2, hf < k.nHF) ∧ k.spanVertCount n.2 = 4) →
+    (∀ n ∈ rem, n.2.length = 4 ∧ (∀ hf ∈ n.2, hf < k.nHF) ∧ k.spanVertCount n.2 = 4 ∧ k.noParallel n.2 = true) →
     (rem.foldl readdCell k).cells = k.cells ++ rem.map (·.2) ∧
     (rem.foldl readdCell k).cDel = k.cDel ++ List.replicate rem.length false ∧
     (rem.foldl readdCell k).faces = k.faces ∧ (rem.foldl readdCell k).edges = k.edges ∧
@@ -229,7 +229,7 @@ theorem readdFold_frames : ∀ (rem : List (Nat × List Nat)) (k : Kernel), Face
     have hl' : FaceLoops (readdCell k n) := faceLoops_of_eq f4 f3 hl
     have hn : (readdCell k n).nHF = k.nHF := by unfold nHF; rw [f3]
     obtain ⟨g1, g2, g3, g4, g5⟩ := ih (readdCell k n) hl' (fun m hm => by
-      rw [hn, spanVertCount_of_eq f4 f3]; exact hr m (List.mem_cons_of_mem _ hm))
+      rw [hn, spanVertCount_of_eq f4 f3, noParallel_of_eq f4 f3]; exact hr m (List.mem_cons_of_mem _ hm))
     simp only [List.foldl_cons]
     refine ⟨by rw [g1, f1]; simp, ?_, by rw [g3, f3], by rw [g4, f4], by rw [g5, f5]⟩
     rw [g2, f2, List.append_assoc]
